@@ -10,12 +10,14 @@ EDITORS = ["update_base_search", "clear_search", "update_unencoded_base_hash", "
            "clear_password", "add_authority_slashes_if_needed", "set_scheme", "set_scheme_from_view_with_colon",
            "append_base_pathname", "append_base_username", "append_base_password",
            # the public component setters, against Model/AggSetters.lean (precondition + encode + editor + limit check)
-           "set_username", "set_password", "set_search", "set_hash", "set_port", "set_protocol"]
+           "set_username", "set_password", "set_search", "set_hash", "set_port", "set_protocol",
+           # the path builder of the single buffer, against Model/AggPath.lean (Props/C07.consume_prepared_path_is_path_state)
+           "consume_prepared_path", "consume_prepared_path"]
 
 # the raw scheme editors leave `type` stale (parse_scheme_with_colon updates it itself); the setter-level operations that read
 # `type` (default port, special-ness of the current scheme) are therefore not compared after one of them
 RAW_SCHEME = ("set_scheme", "set_scheme_from_view_with_colon")
-READS_TYPE = ("set_port",)
+READS_TYPE = ("set_port", "consume_prepared_path")
 
 
 def gen_arg(rng, ed):
@@ -37,6 +39,9 @@ def gen_arg(rng, ed):
         return rng.choice([b"q=1", b"?q", b"a b", b"a\tb", "é".encode(), b"'", b"??"])
     if ed == "set_hash":
         return rng.choice([b"f", b"#f", b"a b", b"a\tb", "é".encode(), b"`", b"##"])
+    if ed == "consume_prepared_path":
+        import pathcorr
+        return pathcorr.gen_input(rng)
     if ed == "set_port":
         return rng.choice([b"", b"0", b"80", b"443", b"21", b"8080", b"65535", b"65536", b"99999999999", b"8a", b"a8", b" 81", b"8\t1",
                            b"0080", b"00000000000000000443", b"-1", b"+1", b"1:2", b"1/", str(rng.randrange(70000)).encode()])
